@@ -849,6 +849,16 @@ def _resolve_action_conflicts(
                 head_groups.update({flow_state.loop_id: [head]})
 
         for group in head_groups.values():
+            # A flow that lost in a group resolved before takes its child flows down with it;
+            # heads of flows that are over by now no longer take part
+            group = [
+                head
+                for head in group
+                if is_active_flow(get_flow_state_from_head(state, head))
+                and head.status == FlowHeadStatus.ACTIVE
+            ]
+            if len(group) == 0:
+                continue
             max_length = max(len(head.matching_scores) for head in group)
             ordered_heads = sorted(
                 group,
